@@ -33,6 +33,30 @@ type w2mon struct {
 	recovering bool
 	c15s       *c15state
 	inflight   map[string][]*inflightPart
+	began      map[string][]partDesc // every reception ever begun, per source/name
+}
+
+// overwrittenByOtherVersion: was a request for ANOTHER version of the name
+// prepared or received after this version first appeared? sts stages all
+// versions of a name in one file: preparing a version of another size
+// recreates it, and a part of another version overwrites what is there, while
+// the record changes hands only when such a part is recorded. Bytes of
+// version h that were received, written and recorded can so be lost to a
+// version that is in flight at the same time. The claim was true when it was
+// recorded (which is what the statement asks) and the final hash check
+// rejects the mixture; the content comparison cannot be held against sts then.
+func (m *w2mon) overwrittenByOtherVersion(src, name, hash string) bool {
+	m.s.mu.Lock()
+	defer m.s.mu.Unlock()
+	seen := false
+	for _, p := range m.began[src+"/"+name] {
+		if p.Hash == hash {
+			seen = true
+		} else if seen {
+			return true
+		}
+	}
+	return false
 }
 
 type inflightPart struct {
@@ -44,6 +68,12 @@ type inflightPart struct {
 // version in progress (its acknowledged parts no longer count).
 func (m *w2mon) onPrepare(d *gkDeco, descs []partDesc) {
 	for _, p := range descs {
+		m.s.mu.Lock()
+		if m.began == nil {
+			m.began = map[string][]partDesc{}
+		}
+		m.began[d.source+"/"+p.Name] = append(m.began[d.source+"/"+p.Name], p)
+		m.s.mu.Unlock()
 		x := m.model(d.source, p.Name)
 		if x.Hash == "" {
 			x.Hash, x.Size = p.Hash, p.Size
@@ -59,6 +89,10 @@ func (m *w2mon) beginReceive(d *gkDeco, desc partDesc, hr *hashReader) func() {
 	k := d.source + "/" + desc.Name
 	f := &inflightPart{desc: desc, hr: hr}
 	m.s.mu.Lock()
+	if m.began == nil {
+		m.began = map[string][]partDesc{}
+	}
+	m.began[k] = append(m.began[k], desc)
 	if m.inflight == nil {
 		m.inflight = map[string][]*inflightPart{}
 	}
